@@ -5,14 +5,21 @@ import (
 	"go.flow.arcalot.io/engine/zverif/ir"
 	"go.flow.arcalot.io/engine/zverif/ref"
 	"go.flow.arcalot.io/engine/zverif/world"
+	"strconv"
 )
 
 // Observe builds the observed-world facts of the main program of a run (DESIGN.md §4): the same
 // evaluation as the natural model, but every step outcome is taken from what the environment saw
 // (deployments, plugin executions with their real inputs and outputs, crashes) instead of being
 // predicted. Values the environment cannot see (engine-invented messages) are wildcards.
-// Only events up to decision number `upto` are considered (0 = all).
-func Observe(p *ir.Program, input map[string]any, evs []world.Event, upto int64) *ref.Facts {
+// Only events up to decision number `upto` are considered (0 = all). Outputs emitted at or after
+// decision `shutdown` (0 = never) are marked Maybe: the engine was already closing the run's steps
+// and may have dropped them.
+func Observe(p *ir.Program, input map[string]any, evs []world.Event, upto int64, shutdown ...int64) *ref.Facts {
+	var sd int64
+	if len(shutdown) > 0 {
+		sd = shutdown[0]
+	}
 	f := &ref.Facts{P: p, Input: input, Steps: map[string]*ref.StepFacts{}, Producible: map[string]any{}, Pending: map[string]bool{}}
 	bySrc := map[string][]world.Event{}
 	for _, e := range evs {
@@ -22,7 +29,7 @@ func Observe(p *ir.Program, input map[string]any, evs []world.Event, upto int64)
 		bySrc[e.Src] = append(bySrc[e.Src], e)
 	}
 	for _, s := range p.Steps {
-		sf := &ref.StepFacts{ID: s.ID, Out: map[string]any{}, Stage: map[string]bool{}, At: map[string]int64{}}
+		sf := &ref.StepFacts{ID: s.ID, Out: map[string]any{}, Stage: map[string]bool{}, At: map[string]int64{}, Maybe: map[string]bool{}}
 		f.Steps[s.ID] = sf
 		if s.Kind != "plugin" {
 			sf.Why = "loops are not observed at this level"
@@ -53,6 +60,9 @@ func Observe(p *ir.Program, input map[string]any, evs []world.Event, upto int64)
 				if id != "" {
 					sf.Out["outputs."+id] = harness.Canon(e.Data["data"])
 					sf.At["outputs."+id] = e.Seq
+					if sd > 0 && e.Seq >= sd {
+						sf.Maybe["outputs."+id] = true
+					}
 				} else {
 					sf.Out["crashed.error"] = map[string]any{"output": ref.Wild{}}
 					sf.At["crashed.error"] = e.Seq
@@ -114,7 +124,23 @@ func producedBefore(f *ref.Facts, e *ir.Expr, q int64) (string, bool) {
 			bad = "oneof: no option produced"
 			return
 		case "opt":
-			return // optional references never justify or forbid a start by themselves (C15 judges them)
+			// an optional reference never forbids a start, but a wait-optional one must have been waited
+			// for: if its source was produced in this run at all, that happened before q
+			if x.Tag == "wait-optional" {
+				ir.Walk(x.Args[0], func(y *ir.Expr) {
+					if y.K != "ref" || len(y.Path) < 4 || y.Path[0] != "steps" {
+						return
+					}
+					sf := f.Steps[y.Path[1].(string)]
+					if sf == nil {
+						return
+					}
+					if at, ok := sf.At[y.Path[2].(string)+"."+y.Path[3].(string)]; ok && at >= q {
+						bad = "wait-optional " + ir.ExprText(y) + " (produced later, at decision " + itoa(at) + ")"
+					}
+				})
+			}
+			return
 		case "ref":
 			if len(x.Path) >= 3 && x.Path[0] == "steps" {
 				id, stage := x.Path[1].(string), x.Path[2].(string)
@@ -155,4 +181,20 @@ func producedBefore(f *ref.Facts, e *ir.Expr, q int64) (string, bool) {
 	}
 	walk(e)
 	return bad, bad == ""
+}
+
+func itoa(i int64) string { return strconv.FormatInt(i, 10) }
+
+var closeFuncs = map[string]bool{"*runningStep.ForceClose": true, "*runningStep.Close": true, "*runningStep.forceClose": true, "*runningStep.closeComponents": true, "*loopState.terminateAllSteps": true}
+
+// ShutdownSeq is the decision at which the goroutine that called Execute for client `name` first
+// started closing steps (0 if it never did): from then on the engine is tearing the run down.
+func ShutdownSeq(r *harness.Result, name string) int64 {
+	prefix := "env/client/" + name + "@"
+	for _, d := range r.Journal {
+		if len(d.Pick) > len(prefix) && d.Pick[:len(prefix)] == prefix && closeFuncs[SiteFunc[d.Pick[len(prefix):]]] {
+			return d.N
+		}
+	}
+	return 0
 }
